@@ -126,14 +126,20 @@ def r_random_zero(ctx, rule='R-RANDOM-ZERO'):
     rs = [f for f in F.lib_fns() if any(c.callee.endswith('Side::random') for c in f.calls()) and f.path.startswith('writer::')]
     if not ctx.need(len(rs) >= 1, rule, 'random splitter (function assigning by Side::random)'):
         return
-    names = [f.path for f in rs]
+    # a dedicated splitter only distributes ids (no node construction, no plane): its call sites are the random-split
+    # sites; where the random assignment is written (or was inlined) into a tree function, the Side::random call itself is
+    def pure_splitter(g):
+        return not any(x.callee.endswith(('Distance::create_split', 'TmpNodes::<DE>::put', 'Distance::side', '::is_zero')) for x in g.calls())
+    names = [f.path for f in rs if pure_splitter(f)]
     n = 0
     for f in F.lib_fns():
-        if not f.path.startswith('writer::'):
+        if not f.path.startswith('writer::') or f.path in names:
             continue
-        for c in f.calls():
-            if c.callee not in names:
-                continue
+        sites = [c for c in f.calls() if c.callee in names]
+        if f in rs:
+            # one site per random-assignment loop written into this function
+            sites += [c for c in f.calls() if c.callee.endswith('Side::random')]
+        for c in sites:
             n += 1
             key = '%s/random-split#%d' % (f.path, n)
             resets = [x for x in f.calls() if x.callee.endswith('UnalignedVector::<Codec>::reset')]
@@ -146,6 +152,14 @@ def r_random_zero(ctx, rule='R-RANDOM-ZERO'):
                 s, x = zero_tests[0]
                 others = [y for y in f.succ(s) if y != x]
                 side_calls = [y for y in f.calls() if y.callee.endswith('Distance::side') and others and y.bb in f.reachable(others[0]) and y.bb not in f.reachable(x, avoid=[s])]
+                if not side_calls and others:
+                    # the per-item side may be computed by a closure handed to a partitioning helper on that edge
+                    region = f.reachable(others[0]) - f.reachable(x, avoid=[s])
+                    for bi in region:
+                        for st in f.blocks[bi]['stmts']:
+                            rv = st['rv']
+                            if rv['k'] == 'agg' and rv.get('agg') == 'closure' and F.fn(rv['closure']) is not None:
+                                side_calls += [y for y in F.fn(rv['closure']).calls() if y.callee.endswith('Distance::side')]
                 ctx.check(bool(side_calls), rule, key, c.loc(), 'random routing iff the stored normal is zero; otherwise by D::side',
                           'in `%s` a non-zero normal is not routed by D::side' % f.path)
             else:
@@ -154,7 +168,7 @@ def r_random_zero(ctx, rule='R-RANDOM-ZERO'):
                 aggs = pairing.split_aggregates(f)
                 goals = [bi for bi, st, d in aggs]
                 good = bool(resets) and bool(goals) and paths.must_pass(f, c.target, goals, [r.bb for r in resets]) \
-                    and all(any(paths.edge_dominates(f, s, x, r.bb) and paths.edge_dominates(f, s, x, c.bb) for s, x, e in paths.controlling_conds(f, c.bb, transitive=False)) for r in resets)
+                    and all(any(paths.edge_dominates(f, s, x, r.bb) and paths.edge_dominates(f, s, x, c.bb) for s, x, e in paths.controlling_conds(f, c.bb, transitive=True)) for r in resets)
                 ctx.check(good, rule, key, c.loc(), 'random children are stored with a zeroed normal (and the normal is zeroed only then)',
                           'in `%s` children can be assigned randomly while a non-zero normal is stored (or the normal is zeroed although the children follow it): queries would be routed by a plane the items do not follow' % f.path)
     ctx.floor(rule, 'random-split call sites', n, 2)
